@@ -28,11 +28,10 @@ CFG = {
                      "the interpreter Model/VxfwInterp.lean (what a handler call, a type assertion w.(EventCapturer), a type switch on a command value, "
                      "struct equality of hit results, a labelled continue, app.handleCommand and a return mean; in the dispatchers a hit result is its widget, "
                      "in update the whole struct) and Model/VxfwInterpTree.lean (composite literal hitResult{…}, uint16 subtraction with wrap-around, checked path[i] swaps, "
-                     "recursion on the surface tree) are the semantics of the Go subset the twelve *_body_eq_model theorems speak about; inside the five FIRST-layer bodies "
-                     "(focusHandler.handleEvent, mouseHandler.handleEvent, focusWidget, mouseExit, mouseEnter) the calls app.handleCommand / m.update / f.findPath are the "
-                     "model functions, each identified with its own executed body by its body_eq_model theorem one level down; update, updatePath, handleCommand, findPath "
-                     "and hitTest also run with their callees interpreted (*_bodies_eq_model, Model/VxfwInterpAll.lean); the event switch and frame step of App.Run are transcribed (pinned by run_switch_covered / run_arm_count / "
-                     "run_frame_order / run_prologue_order), not interpreted; the child sort of render is a model function (render_sort_call + the render ops)",
+                     "recursion on the surface tree) are the semantics of the Go subset the twelve *_body_eq_model theorems speak about; the interpreter layers take their callees as parameters "
+                     "(Model/VxfwInterpAll.lean, VxfwInterpKnot.lean); kRun plugs in only executed bodies (the knot by recursion on the budget) and is proved = eRun; also trusted: "
+                     "Model/VxfwInterpRun.lean (type switch over the event, a.layout = oracle tree + observation draw, s.render = sortTree on the local, vaxis calls = no-ops); the select / channel / "
+                     "timer, defer and the three statements of the prologue of App.Run are transcribed (pinned by run_prologue_order); the child sort of render is a model function (render_sort_call + the render ops)",
                      "the translator extract/cmd/C15/skel.go resolves `continue L` to a loop distance (label names, like local names, are not part of the tie)"],
     "level_text": "vxfw routing, focus and hover, after the repairs of F115a/F115b/F43 in /repo. Proved for every widget behaviour (oracle), state, "
                   "history and nesting depth, without exclusions: key_routing (capture root->focused, target, bubble parent->root, stop at the first "
@@ -72,13 +71,18 @@ CFG = {
                   "focusWidget executed together from their bodies are the model functions (mouse_update_bodies_eq_model, update_path_bodies_eq_model, handle_command_bodies_eq_model), and the Run loop whose frame step runs them that way is eRun too (run_all_bodies_eq_model). "
                   "c15_over_executed_bodies states ALL clauses of the property at once for the Run loop over the executed bodies (ranked oracles, any history): no error, budget never "
                   "exhausted, path = drawn chain of the widget focused now, focus notifications pair up, hover alternates with entered = hit list, every command once, and the next "
-                  "event is routed capture/target/bubble over the drawn chain by the executed dispatcher.",
-    "level_note": "Proved: 108 theorems (Props/C15 31, C15Err 7, C15Gen 14, C15Body 38, witnesses 18 showing the pre-fix code violating the statements, the fixed code meeting them, and F115c). Validated by "
+                  "event is routed capture/target/bubble over the drawn chain by the executed dispatcher. Last part of round 4: the two arms of the select in App.Run (event switch + shouldQuit test; "
+                  "frame step) are translated and EXECUTED with executed callees and proved = eRunEvent / eRunFrame incl. the returned error (run_event_body_eq_model, run_frame_body_eq_model); "
+                  "the knot handleCommand <-> focusWidget is tied by structural recursion on the nesting budget and kHandleCommand = eHandleCommand at EVERY budget (knot_eq_model; the interpreter "
+                  "layers with callees as parameters equal the original layers for good callees: exec1_eq / execX1_eq); kRun - prologue + executed arms + executed bodies with the knot inside, NO model "
+                  "function of the dispatch left - is eRun over every history (run_knot_eq_model). hover_after_error: for EVERY set of failing calls (returned errors and the logged ones inside "
+                  "focusWidget) the hover notifications delivered so far alternate per widget wherever Run can end, and with no error returned the entered set is the hit list.",
+    "level_note": "Proved: 119 theorems (Props/C15 31, C15Err 8, C15Gen 14, C15Body 48, witnesses 18 showing the pre-fix code violating the statements, the fixed code meeting them, and F115c). Validated by "
                   "correspondence only: that the model (incl. the error plumbing) equals vxfw.go (0 mismatches expected on ~38k quick / ~500k thorough op "
                   "lines, both streams), Go's sort.Slice stability for <= 12 children, uint16 coordinate arithmetic (proved equal to integer "
                   "arithmetic for sizes < 65536, hit_list_is_under; since round 4 the uint16 subtractions of hitTest are executed from the body: hit_test_body_eq_model). Modelled not verified: stack overflow on unbounded refocus recursion (fuel; Witness.F115c proves the budget runs out for every budget for ping-pong handlers; "
                   "commands_once_history keeps the hypothesis stuck = false, commands_once_history_ranked / _wf discharge it for ranked / focus-free notification handlers), "
-                  "the knot handleCommand <-> focusWidget as ONE recursive interpreted program (each body is interpreted with the other as the model function), "
+                  "the select / channel / timer of App.Run, its three-statement prologue and the widgets' Draw (oracle trees) are not executed syntax, "
                   "timing of the 8 ms frame timer (frames are explicit steps), Draw errors.",
     "assumptions": ["at most 12 children per surface (Go's sort.Slice is then a stable insertion sort)",
                     "surface sizes fit uint16 (they are uint16 in Go)",
